@@ -19,6 +19,7 @@ structure Call where
   impl : ParseAns
   model : ParseAns
   implBefore : PState
+  alloc : Nat := 0                                 -- heap bytes the real crate requested during the call (counting allocator)
 
 structure Sess where
   allowed : List (Nat × List Nat) := []
@@ -194,7 +195,7 @@ def handleParse (s : Sess) (i : Nat) (op impl : Json) (line2 : Option Json := no
         let stickyNow := ((s.sticky.lookup p).getD []) ++ classes0.filter (fun x => x == "ipfix-multi-template-set") ++
           (if unkNow then ["c17-ipfix-caches-diverged"] else [])
         let classes := (classes0 ++ stickyNow).eraseDups
-        let call : Call := { buf := buf, impl := a, model := m, implBefore := before, jsons := jsons.map (·.compress) }
+        let call : Call := { buf := buf, impl := a, model := m, implBefore := before, jsons := jsons.map (·.compress), alloc := getNatD impl "alloc" 0 }
         let s' := { s' with sticky := upd s'.sticky p stickyNow.eraseDups, implSts := upd s'.implSts p a.state, calls := upd s'.calls p (call :: (s'.calls.lookup p).getD []) }
         (s', Json.mkObj [("i", i), ("kind", "parse"), ("corr", d.isEmpty), ("diff", jsonOfList d),
           ("model_outcome", m.outcome), ("impl_outcome", implOutcome), ("returned", true),
@@ -277,6 +278,17 @@ def handleAssert (s : Sess) (i : Nat) (op : Json) : Json :=
         (!keep || (sel x).state == (sel y).state)
       | _, _ => false
     mk "C14" (f (·.impl)) (f (·.model))
+  | "assert_scale" =>
+    -- C15 (growth): parser `b` received the same shape of input as parser `a`, `k` times as large; the heap bytes requested by
+    -- the last call may grow by at most 1.5·k (+ 64 KiB for nom's capped pre-allocations).  The model has no allocator: its side
+    -- of the verdict is the same statement about the SIZE OF THE RESULT (Cost.resultSize), which the theorems bound linearly.
+    let k := getNatD op "k" 2
+    let ok (x y : Nat) : Bool := 2 * y ≤ 3 * k * x + 2 * 65536
+    (match ca.getLast?, cb.getLast? with
+     | some x, some y =>
+       mk "C15" (ok x.alloc y.alloc && ok (Cost.resultSize x.impl.pkts) (Cost.resultSize y.impl.pkts))
+                (ok (Cost.resultSize x.model.pkts) (Cost.resultSize y.model.pkts))
+     | _, _ => mk "C15" false false)
   | "assert_unchanged" =>
     -- the last call on `a` left the caches as they were
     let key := getStrD op "key" "C06"
